@@ -36,4 +36,23 @@ FlushHazard(st, w) ==
 MergeHazard(st, ids, w) ==
     WeakShadowKeys(MergeInput(st, ids), w, TableEntries(st, AllIds(Latest(st).lv) \ ids))
 
+(* C06-late-insert.  A reader at snapshot S is served from the newest      *)
+(* retained super version whose install seqno is below S                   *)
+(* (get_version_for_snapshot); writes go to the active memtable of the     *)
+(* *newest* super version.  A writer that allocated seqno s, was overtaken  *)
+(* by a version install (flush / compaction commit, seqno > s) and by a     *)
+(* memtable rotation, inserts into a memtable the older super version does *)
+(* not reference: at every snapshot s < S <= install seqno the write is     *)
+(* invisible although it was acknowledged before S was published:          *)
+(*   insert a@0; rotate; insert b@1; s := seqno.next() (= 2); flush        *)
+(*   (installs with seqno 3); rotate; insert c@s; get(c, 3) = None         *)
+(* Signature on a state: entries stored in the newest super version with   *)
+(* seqno below S that the super version chosen for S does not hold.        *)
+LateInsertKeys(st, S) ==
+    LET i == SvIndexFor(st.hist, S) IN
+    IF i = 0 \/ i = Len(st.hist) THEN {}
+    ELSE LET old == SvEntries(st.hist[i], st.mem, st.tbl)
+         IN {e.k : e \in {x \in SvEntries(Latest(st), st.mem, st.tbl) :
+                            x.s < S /\ ~\E f \in old : f.k = x.k /\ f.s = x.s}}
+
 =============================================================================
